@@ -60,6 +60,10 @@ func (a MEntry) same(b MEntry) bool {
 type Mirror struct {
 	// Entries[0] is the boundary placeholder (index 0 initially).
 	Entries []MEntry
+	// Unsynced: number of trailing entries that were found on reopening (they had been written
+	// by a call that never returned) and have not been covered by a returned fsync since. Under
+	// the power-loss model nothing promises that they survive the next crash.
+	Unsynced int
 }
 
 func (m *Mirror) first() uint64 { return m.Entries[0].Index }
@@ -115,7 +119,11 @@ func (l *LogWrap) AppendEntries(es []*raft.LogEntry) error {
 	if simrt.Dead() {
 		return err
 	}
-	l.rec.logOpEnd(l.inc)
+	if err == nil {
+		// A call that failed (injected disk error) may or may not have reached the disk: it stays
+		// "in flight" for the comparison after the restart.
+		l.rec.logOpEnd(l.inc)
+	}
 	l.rec.storageCall(l.inc, "log.Append", err)
 	if err == nil {
 		l.rec.logAppended(l.inc, es)
@@ -129,7 +137,11 @@ func (l *LogWrap) Truncate(index uint64) error {
 	if simrt.Dead() {
 		return err
 	}
-	l.rec.logOpEnd(l.inc)
+	if err == nil {
+		// A call that failed (injected disk error) may or may not have reached the disk: it stays
+		// "in flight" for the comparison after the restart.
+		l.rec.logOpEnd(l.inc)
+	}
 	l.rec.storageCall(l.inc, "log.Truncate", err)
 	if err == nil {
 		l.rec.logTruncated(l.inc, index)
@@ -143,7 +155,11 @@ func (l *LogWrap) DiscardEntries(index, term uint64) error {
 	if simrt.Dead() {
 		return err
 	}
-	l.rec.logOpEnd(l.inc)
+	if err == nil {
+		// A call that failed (injected disk error) may or may not have reached the disk: it stays
+		// "in flight" for the comparison after the restart.
+		l.rec.logOpEnd(l.inc)
+	}
 	l.rec.storageCall(l.inc, "log.Discard", err)
 	if err == nil {
 		l.rec.logDiscarded(l.inc, index, term)
@@ -157,7 +173,11 @@ func (l *LogWrap) Compact(index uint64) error {
 	if simrt.Dead() {
 		return err
 	}
-	l.rec.logOpEnd(l.inc)
+	if err == nil {
+		// A call that failed (injected disk error) may or may not have reached the disk: it stays
+		// "in flight" for the comparison after the restart.
+		l.rec.logOpEnd(l.inc)
+	}
 	l.rec.storageCall(l.inc, "log.Compact", err)
 	if err == nil {
 		l.rec.logCompacted(l.inc, index)
